@@ -8,7 +8,7 @@ EXPLANATION = (
     "Same exploration as C07 (real constructor + export, both back-ends, all four directions, layers forced by an upper bound; vpsc contract stub so that "
     "the separation guaranteed by C01 is available). On the PRINTED rectangles (origins truncated by %i, sizes exact) z3 proves for all symbolic times and "
     "widths: no two boxes intersect; every box lies wholly on the direction's side with its near edge at least layerGap - 1 from the axis; every box of a farther "
-    "layer lies wholly beyond every box of a nearer layer. Label spacing is the default 3, layer gaps 60, 3 and 1."
+    "layer lies wholly beyond every box of a nearer layer. Label spacing is the default 3, layer gaps 60, 3 and 1; default padding and a custom padding whose left+right exceeds top+bottom by 7."
 )
 BOUNDS = {"quick": dict(data="2..4", layergap="60, 3, 1", spacing="default 3"), "thorough": dict(same="as quick")}
 OUTSIDE = ["label spacing below 3 or layer gap below 1 (the statement's own restriction)", "more than 4 data"]
